@@ -59,6 +59,10 @@ def random_grammar(rng):
             prods.append((start, ()))
         # a grammar is a *set* of productions: listing one twice adds nothing
         return start, list(dict.fromkeys((l, tuple(r)) for l, r in prods))
+    if r < 0.34:
+        return layered_grammar(rng)
+    if r < 0.56:
+        return product_grammar(rng)
     n_nt = rng.randint(1, 5)
     n_t = rng.randint(1, 4)
     nts = ["N%d" % i for i in range(n_nt)]
@@ -107,6 +111,86 @@ def random_grammar(rng):
             red = [(l, r) for l, r in red if l in e2.reachable]
             if red:
                 out = red
+    return nts[0], out
+
+
+def product_grammar(rng):
+    """LL(1)-by-construction grammars (every leaf uses a fresh terminal):
+    sequences, optional parts, unit chains of varying depth.  Conflict-free by
+    construction, so every string is judged; they exercise FIRST/closure
+    fixpoints that need several rounds (nullable symbol first, then a symbol
+    whose FIRST set arrives late through a unit chain)."""
+    prods = []
+    counter = [0, 0]
+
+    def fresh_nt():
+        counter[0] += 1
+        return "P%d" % counter[0]
+
+    def fresh_t():
+        counter[1] += 1
+        return "t%d" % counter[1]
+
+    def gen(sym, depth):
+        k = rng.random()
+        if depth >= 3 or counter[1] >= 7 or k < 0.2:
+            prods.append((sym, (fresh_t(),)))
+        elif k < 0.45:
+            prods.append((sym, (fresh_t(),)))
+            prods.append((sym, ()))
+        elif k < 0.65:
+            child = fresh_nt()
+            prods.append((sym, (child,)))
+            gen(child, depth + 1)
+        else:
+            kids = [fresh_nt() for _ in range(rng.randint(2, 3))]
+            prods.append((sym, tuple(kids)))
+            for c in kids:
+                gen(c, depth + 1)
+
+    gen("P0", 0)
+    rng.shuffle(prods)
+    return "P0", prods
+
+
+def layered_grammar(rng):
+    """Larger grammars (up to 8 nonterminals) biased towards the shapes where
+    FIRST/FOLLOW/closure computations need several rounds: nullable
+    nonterminals at the start of a right-hand side, unit chains, a nonterminal
+    used after another symbol, right-hand sides of 2-4 nonterminals."""
+    n = rng.randint(3, 8)
+    nts = ["N%d" % i for i in range(n)]
+    terms = list("abcd"[:rng.randint(2, 4)])
+    prods = []
+    for i, a in enumerate(nts):
+        later = nts[i + 1:]
+        k = rng.randint(1, 3)
+        for _ in range(k):
+            r = rng.random()
+            if not later or r < 0.25:
+                rhs = (rng.choice(terms),) if rng.random() < 0.8 else ()
+            elif r < 0.45:
+                rhs = (rng.choice(later),)  # unit production
+            elif r < 0.6:
+                rhs = ()
+            else:
+                ln = rng.randint(2, 4)
+                rhs = tuple(rng.choice(later) if rng.random() < 0.7 else rng.choice(terms) for _ in range(ln))
+            prods.append((a, rhs))
+        if rng.random() < 0.2 and later:
+            prods.append((a, (rng.choice(terms), a) if rng.random() < 0.5 else (a, rng.choice(terms))))
+    # make every nonterminal productive-ish: the last ones get terminals
+    for a in nts[-2:]:
+        prods.append((a, (rng.choice(terms),)))
+    out = list(dict.fromkeys(prods))
+    e = earley.Earley(nts[0], out)
+    keep = e.productive
+    if nts[0] in keep:
+        red = [(l, r) for l, r in out if l in keep and all((s in keep) or (s not in e.nonterminals) for s in r)]
+        e2 = earley.Earley(nts[0], red)
+        red = [(l, r) for l, r in red if l in e2.reachable]
+        if red:
+            out = red
     return nts[0], out
 
 
@@ -340,7 +424,7 @@ def case_emboss(arg):
 
 def run(ctx):
     quick = ctx.tier == "quick"
-    n_gram = 3000 if quick else 60000
+    n_gram = 6000 if quick else 80000
     n_emb = 640 if quick else 12000
     args = [("case_grammar", {"seed": ctx.seed, "i": i, "max_len": 7 if quick else 8,
                               "max_strings": 5000 if quick else 9000}) for i in range(n_gram)]
